@@ -28,6 +28,7 @@ type dkgModel struct {
 	enc                                               *ssa.Function
 	tagCommit, tagReveal, tagShare                    int64
 	waits                                             []*waitFn
+	n1Rule                                            string
 }
 
 type waitFn struct {
@@ -241,73 +242,7 @@ func checkC05(c *Ctx) {
 		short := b.pkg[strings.LastIndex(b.pkg, "/")+1:]
 		m := d.m
 
-		// ---------------------------------------------------------------- O1 / N1
-		if len(d.waits) != 3 {
-			c.Bad(O1, b.pkg, "wait functions", "-", fmt.Sprintf("%d functions wait on the condition variable; expected the three phase waits", len(d.waits)))
-		}
-		errType := types.Universe.Lookup("error").Type()
-		honoured := map[*ssa.Function]bool{}
-		for _, w := range d.waits {
-			fn := w.fn
-			fname := FuncName(fn)
-			res := fn.Signature.Results()
-			if res.Len() != 1 || !types.Identical(res.At(0).Type(), errType) {
-				c.Bad(O1, fname, "expiry is reported", m.Pos(fn.Pos()), "the wait returns nothing: when the context expires the caller cannot tell and carries on with incomplete contributions (reveals its key without holding all commitments, dereferences missing shares)")
-				continue
-			}
-			// returns: nil only under the threshold fact; non-nil on the expiry exit
-			okNil, okExp := true, false
-			for _, in := range instrsOf(fn) {
-				r, ok := in.(*ssa.Return)
-				if !ok {
-					continue
-				}
-				rv := retResult(r, 0)
-				if isNilConst(rv) {
-					if !d.thresholdFact(c, w, r) {
-						okNil = false
-					}
-				} else {
-					// reached on the arm where the context ended
-					if boolFact(FactsAt(r), true, func(v ssa.Value) bool {
-						cl, ok := v.(*ssa.Call)
-						return ok && staticCallee(&cl.Call) != nil && staticCallee(&cl.Call).Name() == "contextTimedOut"
-					}) {
-						okExp = true
-					}
-				}
-			}
-			c.Check(okNil && okExp, O1, fname, "expiry is reported", m.Pos(fn.Pos()), "nil only under the threshold; non-nil error on the context-ended exit",
-				"the wait does not distinguish expiry from completion")
-			honoured[fn] = okNil && okExp
-			// callers up to KeyGen
-			seen := map[*ssa.Function]bool{}
-			var up func(f *ssa.Function)
-			up = func(f *ssa.Function) {
-				if seen[f] || f == d.keygen {
-					return
-				}
-				seen[f] = true
-				for _, cs := range staticCallsTo(d.fns, f) {
-					cl, isCall := cs.(*ssa.Call)
-					construct := "caller honours error of " + f.Name()
-					if !isCall {
-						c.Bad(O1, FuncName(cs.Parent()), construct, m.Pos(cs.Pos()), "the wait is started with go/defer: its outcome is lost")
-						continue
-					}
-					ok, why := errorHonoured(cl)
-					c.Check(ok, O1, FuncName(cs.Parent()), construct, m.Pos(cs.Pos()), "returned directly or tested before anything else", "the outcome of the wait is ignored ("+why+"): on expiry the protocol proceeds with incomplete data")
-					if cs.Parent() != d.keygen {
-						if cs.Parent().Signature.Results().Len() == 0 {
-							c.Bad(O1, FuncName(cs.Parent()), "propagates error of "+f.Name(), m.Pos(cs.Parent().Pos()), "the phase function has no error result to propagate the expiry")
-							continue
-						}
-						up(cs.Parent())
-					}
-				}
-			}
-			up(fn)
-		}
+		d.ruleWaits(c, O1)
 
 		// ---------------------------------------------------------------- O2
 		sends := d.sendSites()
@@ -410,7 +345,10 @@ func checkC05(c *Ctx) {
 
 // thresholdFact: the `return nil` of a wait is guarded by the right count comparison.
 func (d *dkgModel) thresholdFact(c *Ctx, w *waitFn, r *ssa.Return) bool {
-	const N1 = "C05.N1"
+	N1 := d.n1Rule
+	if N1 == "" {
+		N1 = "C05.N1"
+	}
 	lenParties := "len(field " + fieldKey(d.fParties) + ")"
 	var forms []map[string]int64
 	var k int64
@@ -802,4 +740,77 @@ func sameSliceExpr(a, b ssa.Value) bool {
 		return okx && oky && kx == ky
 	}
 	return eq(sa.Low, sb.Low) && eq(sa.High, sb.High)
+}
+
+// ruleWaits: every wait on the condition variable reports expiry and every caller up to KeyGen honours it.
+func (d *dkgModel) ruleWaits(c *Ctx, O1 string) {
+	b := d.b
+	m := d.m
+	if len(d.waits) != 3 {
+		c.Bad(O1, b.pkg, "wait functions", "-", fmt.Sprintf("%d functions wait on the condition variable; expected the three phase waits", len(d.waits)))
+	}
+	errType := types.Universe.Lookup("error").Type()
+	honoured := map[*ssa.Function]bool{}
+	for _, w := range d.waits {
+		fn := w.fn
+		fname := FuncName(fn)
+		res := fn.Signature.Results()
+		if res.Len() != 1 || !types.Identical(res.At(0).Type(), errType) {
+			c.Bad(O1, fname, "expiry is reported", m.Pos(fn.Pos()), "the wait returns nothing: when the context expires the caller cannot tell and carries on with incomplete contributions (reveals its key without holding all commitments, dereferences missing shares)")
+			continue
+		}
+		// returns: nil only under the threshold fact; non-nil on the expiry exit
+		okNil, okExp := true, false
+		for _, in := range instrsOf(fn) {
+			r, ok := in.(*ssa.Return)
+			if !ok {
+				continue
+			}
+			rv := retResult(r, 0)
+			if isNilConst(rv) {
+				if !d.thresholdFact(c, w, r) {
+					okNil = false
+				}
+			} else {
+				// reached on the arm where the context ended
+				if boolFact(FactsAt(r), true, func(v ssa.Value) bool {
+					cl, ok := v.(*ssa.Call)
+					return ok && staticCallee(&cl.Call) != nil && staticCallee(&cl.Call).Name() == "contextTimedOut"
+				}) {
+					okExp = true
+				}
+			}
+		}
+		c.Check(okNil && okExp, O1, fname, "expiry is reported", m.Pos(fn.Pos()), "nil only under the threshold; non-nil error on the context-ended exit",
+			"the wait does not distinguish expiry from completion")
+		honoured[fn] = okNil && okExp
+		// callers up to KeyGen
+		seen := map[*ssa.Function]bool{}
+		var up func(f *ssa.Function)
+		up = func(f *ssa.Function) {
+			if seen[f] || f == d.keygen {
+				return
+			}
+			seen[f] = true
+			for _, cs := range staticCallsTo(d.fns, f) {
+				cl, isCall := cs.(*ssa.Call)
+				construct := "caller honours error of " + f.Name()
+				if !isCall {
+					c.Bad(O1, FuncName(cs.Parent()), construct, m.Pos(cs.Pos()), "the wait is started with go/defer: its outcome is lost")
+					continue
+				}
+				ok, why := errorHonoured(cl)
+				c.Check(ok, O1, FuncName(cs.Parent()), construct, m.Pos(cs.Pos()), "returned directly or tested before anything else", "the outcome of the wait is ignored ("+why+"): on expiry the protocol proceeds with incomplete data")
+				if cs.Parent() != d.keygen {
+					if cs.Parent().Signature.Results().Len() == 0 {
+						c.Bad(O1, FuncName(cs.Parent()), "propagates error of "+f.Name(), m.Pos(cs.Parent().Pos()), "the phase function has no error result to propagate the expiry")
+						continue
+					}
+					up(cs.Parent())
+				}
+			}
+		}
+		up(fn)
+	}
+
 }
